@@ -421,6 +421,160 @@ fn break_on_exceed(c: &Case, eut: &Eut, pid: u16) -> Result<(), Failure> {
     Ok(())
 }
 
+/// Deterministic scenarios around two boundary conditions the generated bursts seldom hit.
+#[derive(Clone, Copy, Debug, PartialEq, Eq, Hash, Serialize, Deserialize)]
+pub enum Fixed {
+    /// v5: a QoS 1 PUBLISH re-using an id that is still being handled is answered with 0x91; afterwards a peer that
+    /// fills exactly Receive Maximum must not be refused
+    DupThenFull { role: Role, rm: u16, dups: u8 },
+    /// byte limit L: handlers for A (size a) and B are running, C waits; B finishes and leaves exactly `a` bytes in
+    /// flight: C must start although A is still running whenever a <= L
+    ByteBoundary { role: Role, limit: u16, a: u16 },
+}
+
+fn ffail(role: Role, rule: &str, detail: String) -> Failure {
+    Failure::new(rule, format!("C12/{}/{rule}", role.name()), detail)
+}
+
+/// PUBLISH QoS 1 "t/a" whose Remaining Length is exactly `size`
+fn publish_of_size(eut: &Eut, pid: u16, size: u16) -> Vec<u8> {
+    for p in 0..=u32::from(size) {
+        let pb = s5::Publish5 { qos: 1, pid: Some(pid), topic: "t/a".into(), payload_len: p, ..Default::default() };
+        let bytes = eut.encode(&P5::Publish(Box::new(pb)), &wire::payload(u32::from(pid), p));
+        if let wire::Split::Frame { rl, .. } = wire::split(&bytes) {
+            if rl == u32::from(size) {
+                return bytes;
+            }
+        }
+    }
+    panic!("no payload gives Remaining Length {size}");
+}
+
+pub async fn run_fixed(fx: Fixed) -> Result<CaseInfo, Failure> {
+    match fx {
+        Fixed::DupThenFull { role, rm, dups } => {
+            let mut cfg = Cfg::default();
+            cfg.v5.max_receive = rm;
+            cfg.v5.connect.receive_max = Some(rm);
+            let eut = Eut::start(role, &cfg).await;
+            eut.handshake(&cfg).await;
+            let app = eut.app().clone();
+            app.default_open.set(false);
+            let publish = |pid: u16| P5::Publish(Box::new(s5::Publish5 { qos: 1, pid: Some(pid), topic: "t/a".into(), payload_len: 1, ..Default::default() }));
+            eut.peer_send(&publish(1), &[1]);
+            eut.settle().await;
+            // the duplicates: never more than Receive Maximum unacknowledged at once
+            for k in 0..dups {
+                eut.peer_send(&publish(1), &[2]);
+                eut.settle().await;
+                let (pk, _) = eut.packets();
+                let refused = pk.iter().filter(|w| matches!(&w.pkt, P5::PubAck(a) if a.pid == 1 && a.reason == 0x91)).count();
+                if refused != usize::from(k) + 1 {
+                    return Err(ffail(role, "duplicate-id-not-refused", format!("duplicate #{k} of id 1: {refused} PUBACK(0x91) so far; handlers entered {}; stops {:?}", app.pub_enters().len(), app.stops())));
+                }
+            }
+            if app.pub_enters().len() != 1 {
+                return Err(ffail(role, "duplicate-id-delivered", format!("{} handlers entered for one accepted publish", app.pub_enters().len())));
+            }
+            app.open_all();
+            app.default_open.set(false);
+            eut.settle().await;
+            // everything acknowledged: the peer may now have Receive Maximum publishes outstanding
+            for i in 0..rm {
+                eut.peer_send(&publish(10 + i), &[3]);
+                eut.settle().await;
+            }
+            let (pk, _) = eut.packets();
+            if let Some(d) = pk.iter().find_map(|w| if let P5::Disconnect(d) = &w.pkt { Some(d.reason) } else { None }) {
+                return Err(Failure::new(
+                    "conforming-peer-refused",
+                    format!("C12/{}/conforming-peer-refused-0x93", role.name()),
+                    format!("after {dups} refused duplicate(s) of an id in use the peer sent exactly Receive Maximum = {rm} publishes and was disconnected with reason {d:#x}; stops {:?}", app.stops()),
+                ));
+            }
+            if app.pub_enters().len() != 1 + usize::from(rm) {
+                return Err(ffail(role, "publish-never-handled", format!("Receive Maximum {rm}: {} of {} publishes reached a handler; stops {:?}", app.pub_enters().len() - 1, rm, app.stops())));
+            }
+            app.open_all();
+            eut.settle().await;
+            let (pk, _) = eut.packets();
+            let acks = pk.iter().filter(|w| matches!(&w.pkt, P5::PubAck(a) if a.pid >= 10 && a.reason == 0)).count();
+            if acks != usize::from(rm) || !app.stops().is_empty() {
+                return Err(ffail(role, "publish-not-acknowledged", format!("{acks} of {rm} acknowledged; stops {:?}", app.stops())));
+            }
+            eut.finish().await;
+            Ok(CaseInfo::nontrivial(&fx).label("duplicate-id-then-full-window"))
+        }
+        Fixed::ByteBoundary { role, limit, a } => {
+            let mut cfg = Cfg::default();
+            cfg.v3.max_receive = 0;
+            cfg.v5.max_receive = 0;
+            cfg.v3.max_receive_size = usize::from(limit);
+            cfg.v5.max_receive_size = usize::from(limit);
+            let eut = Eut::start(role, &cfg).await;
+            eut.handshake(&cfg).await;
+            let app = eut.app().clone();
+            app.default_open.set(false);
+            let half = limit / 2;
+            eut.peer().send(&publish_of_size(&eut, 1, a));
+            eut.settle().await;
+            eut.peer().send(&publish_of_size(&eut, 2, half));
+            eut.settle().await;
+            eut.peer().send(&publish_of_size(&eut, 3, half));
+            eut.settle().await;
+            let before = app.pub_enters().len();
+            if before < 1 {
+                return Err(ffail(role, "publish-never-handled", "the first publish did not reach its handler".into()));
+            }
+            // B (the second handler) finishes first
+            if before >= 2 {
+                app.open(G_PUB, 1);
+                eut.settle().await;
+            }
+            let after = app.pub_enters().len();
+            // bytes in flight now: a (+ C once it started).  The limiter admits while bytes in flight <= limit.
+            if before == 2 && a <= limit && after < 3 {
+                return Err(Failure::new(
+                    "reading-not-resumed",
+                    format!("C12/{}/reading-not-resumed", role.name()),
+                    format!("max_receive_size {limit}: handlers for A ({a} bytes) and B ({half}) were running and C ({half}) waited; B finished, {a} bytes remain in flight (within the limit) but C was not started while A keeps running; log {:?}", crate::props::c03::brief_log(&app.events())),
+                ));
+            }
+            app.open_all();
+            eut.settle().await;
+            if app.pub_enters().len() != 3 || !app.stops().is_empty() {
+                return Err(ffail(role, "publish-never-handled", format!("{} of 3 publishes handled with all gates open; stops {:?}", app.pub_enters().len(), app.stops())));
+            }
+            eut.finish().await;
+            let mut info = if before == 2 { CaseInfo::nontrivial(&fx) } else { CaseInfo::trivial() };
+            if before == 2 && a == limit {
+                info.labels.push("byte-limit-exactly-reached");
+            }
+            info.labels.push("byte-boundary");
+            Ok(info)
+        }
+    }
+}
+
+pub fn fixed_cases() -> Vec<Fixed> {
+    let mut out = Vec::new();
+    for role in [Role::V5Server, Role::V5Client] {
+        for rm in 2..5u16 {
+            for dups in 1..=(rm as u8 - 1).min(2) {
+                out.push(Fixed::DupThenFull { role, rm, dups });
+            }
+        }
+    }
+    for role in [Role::V3Server, Role::V5Server] {
+        for limit in [60u16, 100, 200] {
+            for a in [limit - 2, limit - 1, limit, limit + 1, limit / 2, limit / 2 + 1] {
+                out.push(Fixed::ByteBoundary { role, limit, a });
+            }
+        }
+    }
+    out
+}
+
 fn item_strategy(server: bool) -> BoxedStrategy<Item> {
     let p = (0u8..3, prop_oneof![3 => 0u32..40, 2 => 40u32..200, 1 => 900u32..1200], prop_oneof![3 => Just(1u8), 1 => 2u8..4])
         .prop_map(|(qos, payload, pieces)| Item::Pub(PubSpec { qos, payload, pieces }));
@@ -461,6 +615,8 @@ pub fn run(ctx: &Ctx, started: Instant) -> i32 {
     let stats = par_shards(WORKERS, |shard| {
         let mut st = Stats::default();
         let role = [Role::V3Server, Role::V5Server, Role::V5Client, Role::V3Server][shard % 4];
+        let mine: Vec<Fixed> = fixed_cases().into_iter().enumerate().filter(|(i, _)| i % WORKERS == shard).map(|(_, f)| f).collect();
+        run_list_bed("C12", mine, &mut st, |f| json!({"fixed": f}), run_fixed);
         run_proptest_bed("C12", ctx.sub_seed("rand", shard), per_shard, &case_strategy(role), &mut st, |c| json!({"case": c}), run_case);
         st
     });
@@ -484,6 +640,10 @@ pub fn run(ctx: &Ctx, started: Instant) -> i32 {
 
 pub fn replay(path: &str) -> i32 {
     let case = super::load_case(path);
+    if !case["fixed"].is_null() {
+        let res = serde_json::from_value::<Fixed>(case["fixed"].clone()).map_err(|e| e.to_string()).map(|f| run_isolated("C12", f, &run_fixed));
+        return super::report_replay("C12", path, res);
+    }
     let res = serde_json::from_value::<Case>(case["case"].clone()).map_err(|e| e.to_string()).map(|c| check_case(&c));
     super::report_replay("C12", path, res)
 }
